@@ -461,6 +461,7 @@ var admittingQuery *WaitStateData
 func clearAdmittingQuery() {
 	waitingQueriesLock.Lock()
 	admittingQuery = nil
+	verifhook.At("q.pull.cleared")
 	waitingQueriesLock.Unlock()
 }
 
@@ -871,6 +872,7 @@ func cancelWaitingQuery(qid uint64) bool {
 	if rQuery == nil && admittingQuery != nil && admittingQuery.qid == qid {
 		// already dequeued, not yet (known to be) running: RunQuery skips a cancelled query
 		rQuery = admittingQuery.rQuery
+		verifhook.At("q.cancel.admitting", "qid", qid)
 	}
 	waitingQueriesLock.Unlock()
 
